@@ -8,6 +8,8 @@ import (
 	"encoding/json"
 	"fmt"
 	"os"
+	"os/exec"
+	"path/filepath"
 	"regexp"
 	"sort"
 	"strconv"
@@ -499,7 +501,8 @@ func Run(tier string) int {
 	if !complete {
 		cv["caps_hit"] = []string{"deadline"}
 	}
-	rep.Assumptions = []string{"each call takes one UpdateTagOperation, as the HTTP API does", "liveness is judged by a 45 s watchdog on calls that normally take milliseconds"}
+	httpLayer(rep)
+	rep.Assumptions = []string{"each call takes one UpdateTagOperation, as the HTTP API does (the HTTP family sends requests that name two)", "liveness is judged by a 45 s watchdog on calls that normally take milliseconds"}
 	if states < 5 {
 		mc.Fatal("vacuous: %d states", states)
 	}
@@ -512,4 +515,49 @@ func firstLines(s string, n int) string {
 		l = l[:n]
 	}
 	return strings.Join(l, " / ")
+}
+
+// httpLayer runs the HTTP family (overlay test TestVerifC11HTTP in package main, compiled into bin/c19.test): the
+// tag routes of the real router with one and with two `method` values per PATCH request, add and delete requests
+// with missing, repeated and contradictory parameters; a request that is not answered 2xx must leave the tags unchanged.
+func httpLayer(rep *mc.Reporter) {
+	bin := filepath.Join(mc.VerifDir, "bin", "c19.test")
+	if _, err := os.Stat(bin); err != nil {
+		rep.Coverage["http_layer"] = "not run: bin/c19.test is missing"
+		return
+	}
+	tmp, err := os.MkdirTemp("", "verif-c11h-")
+	if err != nil {
+		mc.Fatal("%v", err)
+	}
+	defer os.RemoveAll(tmp)
+	out := filepath.Join(tmp, "c11h.json")
+	cmd := exec.Command(bin, "-test.run", "^TestVerifC11HTTP$", "-test.timeout", "10m", "-test.count", "1")
+	cmd.Dir = tmp
+	cmd.Env = append(os.Environ(), "VERIF_C11H_OUT="+out, "TZ=UTC", "TMPDIR="+tmp)
+	b, runErr := cmd.CombinedOutput()
+	var r struct {
+		Requests, Rejected, Accepted int
+		Outcomes                     map[string]int
+		Violations                   []struct{ Symptom, Key, Msg string }
+		Error                        string
+	}
+	jb, err := os.ReadFile(out)
+	if err != nil {
+		mc.Fatal("HTTP family wrote no result: %v %v\n%s", err, runErr, firstLines(string(b), 30))
+	}
+	if err := json.Unmarshal(jb, &r); err != nil {
+		mc.Fatal("HTTP family: %v", err)
+	}
+	if r.Error != "" || (runErr != nil && len(r.Violations) == 0) {
+		mc.Fatal("HTTP family: %s %v\n%s", r.Error, runErr, firstLines(string(b), 30))
+	}
+	for _, v := range r.Violations {
+		rep.Report(mc.Violation{Symptom: v.Symptom, Key: v.Key, Msg: v.Msg, Replay: map[string]any{"request": v.Key, "run": "VERIF_C11H_OUT=/tmp/c11h.json /verif/bin/c19.test -test.run '^TestVerifC11HTTP$'"}})
+	}
+	rep.Coverage["http_requests"] = r.Requests
+	rep.Coverage["http_requests_rejected"] = r.Rejected
+	rep.Coverage["http_requests_accepted"] = r.Accepted
+	rep.Coverage["http_status_counts"] = r.Outcomes
+	rep.Coverage["http_rule"] = "PATCH /api/tags on four tag names x every one and every ordered pair of 14 (method, parameter) variants (acceptable and unacceptable values of change_color, change_query, change_name, converter_set, mark_add, mark_del) on a freshly restored tag set, PUT and DELETE with missing, repeated and contradictory parameters, through the real router; a request that is not answered 2xx must leave GET /api/tags unchanged"
 }
